@@ -1,4 +1,5 @@
 import Pyvsc.Props.C10
+import Pyvsc.Proofs.Scatter
 import Mathlib.Tactic.Linarith
 /-!
 # C19 — wildcard bins match exactly the values that agree with the pattern
@@ -131,6 +132,177 @@ theorem pushVals_denotes (vals : List Nat) (v : Nat) :
     obtain ⟨h1, h2⟩ := denN_pushVal rev x v hwf
     rw [ih _ h2, h1]
     simp only [List.mem_cons]; tauto
+
+/-! ### expansion of a `(value, mask)` pair -/
+
+theorem agrees_iff_testBit (value mask v : Nat) :
+    agrees value mask v = true ↔ ∀ p, mask.testBit p = true → v.testBit p = value.testBit p := by
+  unfold agrees
+  rw [beq_iff_eq]
+  constructor
+  · intro h p hp
+    have := congrArg (fun x => x.testBit p) h
+    simpa [Nat.testBit_and, hp] using this
+  · intro h
+    apply Nat.eq_of_testBit_eq
+    intro p
+    rw [Nat.testBit_and, Nat.testBit_and]
+    cases hm : mask.testBit p with
+    | false => simp
+    | true => rw [h p hm]
+
+/-- **`valmask2binlist` expands to exactly the values below the mask's highest care bit that agree
+    with the pattern on every care bit.**  (Wildcard digits above the highest care bit are not
+    expanded: the factory is not told the coverpoint width — known finding F12; for a mask whose top
+    bit is the top bit of the coverpoint this is the full statement of the property.) -/
+theorem valmask2binlist_spec (value mask : Nat) (rl : List (Nat × Nat))
+    (h : valmask2binlist value mask = some rl) (v : Nat) :
+    DenN rl v ↔ (agrees value mask v = true ∧ ∀ p, mask >>> p = 0 → v.testBit p = false) := by
+  unfold valmask2binlist at h
+  simp only [] at h
+  split at h
+  · simp at h
+  · simp only [Option.some.injEq] at h
+    subst h
+    obtain ⟨hg, ho⟩ := Scatter.groups_spec mask
+    have hb : ∀ p, Scatter.InG (groups mask) p → (value &&& mask).testBit p = false := by
+      intro p hp
+      rw [Nat.testBit_and, ((hg p).1 hp).1]; simp
+    rw [pushVals_denotes, Scatter.scatter_range (groups mask) ho (value &&& mask) v hb, agrees_iff_testBit]
+    have hbit : ∀ p, mask >>> p = 0 → mask.testBit p = false := by
+      intro p hp
+      have : (mask >>> p).testBit 0 = false := by rw [hp]; simp
+      rw [Nat.testBit_shiftRight] at this
+      simpa using this
+    constructor
+    · intro hv
+      refine ⟨fun p hp => ?_, fun p hp => ?_⟩
+      · rw [hv p (fun hin => by rw [((hg p).1 hin).1] at hp; simp at hp), Nat.testBit_and, hp]; simp
+      · rw [hv p (fun hin => ((hg p).1 hin).2 hp), Nat.testBit_and, hbit p hp]; simp
+    · rintro ⟨ha, hhi⟩ p hp
+      rw [Nat.testBit_and]
+      cases hm : mask.testBit p with
+      | true => rw [ha p hm]; simp
+      | false =>
+        have hz : mask >>> p = 0 := by
+          by_cases hz : mask >>> p = 0
+          · exact hz
+          · exact absurd ((hg p).2 ⟨hm, hz⟩) hp
+        rw [hhi p hz]; simp
+
+/-- the same, with the bound written as a power of two: `L` is any length with `mask < 2 ^ L` whose
+    top position holds a care bit -/
+theorem valmask2binlist_full (value mask L : Nat) (rl : List (Nat × Nat))
+    (h : valmask2binlist value mask = some rl) (hL : mask < 2 ^ (L + 1)) (htop : mask.testBit L = true) (v : Nat) :
+    DenN rl v ↔ (v < 2 ^ (L + 1) ∧ agrees value mask v = true) := by
+  rw [valmask2binlist_spec value mask rl h v]
+  have hsh : ∀ p, mask >>> p = 0 ↔ L + 1 ≤ p := by
+    intro p
+    rw [Nat.shiftRight_eq_div_pow, Nat.div_eq_zero_iff_lt (Nat.two_pow_pos p)]
+    constructor
+    · intro hlt
+      by_contra hle
+      have hp : p ≤ L := by omega
+      have : mask.testBit L = false :=
+        Nat.testBit_lt_two_pow (Nat.lt_of_lt_of_le hlt (Nat.pow_le_pow_right (by decide) hp))
+      rw [this] at htop; simp at htop
+    · intro hle
+      exact Nat.lt_of_lt_of_le hL (Nat.pow_le_pow_right (by decide) hle)
+  constructor
+  · rintro ⟨ha, hhi⟩
+    refine ⟨?_, ha⟩
+    apply Nat.lt_pow_two_of_testBit
+    intro p hp
+    exact hhi p ((hsh p).2 hp)
+  · rintro ⟨hlt, ha⟩
+    refine ⟨ha, fun p hp => ?_⟩
+    exact Nat.testBit_lt_two_pow (Nat.lt_of_lt_of_le hlt (Nat.pow_le_pow_right (by decide) ((hsh p).1 hp)))
+
+example : valmask2binlist 0b1001 0b1011 = some [(9, 9), (13, 13)] := by decide
+
+/-! ### the whole array -/
+
+/-- expansion of one pattern argument of `wildcard_bin_array` -/
+def expand (p : Pat) : Option (List (Nat × Nat)) := do
+  let (v, m) ← p.valmask
+  valmask2binlist v m
+
+theorem mapM_flatten_mem : ∀ (pats : List Pat) (rls : List (List (Nat × Nat))), pats.mapM expand = some rls →
+    ∀ x, x ∈ rls.flatten ↔ ∃ p ∈ pats, ∃ r, expand p = some r ∧ x ∈ r := by
+  intro pats
+  induction pats with
+  | nil => intro rls h x; simp at h; subst h; simp
+  | cons a as ih =>
+    intro rls h x
+    rw [List.mapM_cons] at h
+    cases hfa : expand a with
+    | none => rw [hfa] at h; simp at h
+    | some b =>
+      cases hm : as.mapM expand with
+      | none => rw [hfa, hm] at h; simp at h
+      | some bs =>
+        rw [hfa, hm] at h
+        simp at h
+        subst h
+        simp only [List.flatten_cons, List.mem_append, ih bs hm x, List.mem_cons, exists_eq_or_imp, hfa,
+          Option.some.injEq, exists_eq_left']
+
+theorem mapM_none_of_mem : ∀ (pats : List Pat) (p : Pat), p ∈ pats → expand p = none → pats.mapM expand = none := by
+  intro pats
+  induction pats with
+  | nil => intro p hp; simp at hp
+  | cons a as ih =>
+    intro p hp hn
+    rw [List.mapM_cons]
+    rcases List.mem_cons.1 hp with rfl | hp
+    · rw [hn]; rfl
+    · rw [ih p hp hn]
+      cases expand a <;> rfl
+
+/-- **A `wildcard_bin_array` covers exactly the values some pattern matches** (on the care bits, below
+    the pattern's highest care bit — see `valmask2binlist_spec` and F12): sorting and the overlap
+    collapse lose and add nothing. -/
+theorem wildArray_denotes (pats : List Pat) (rl : RL) (h : wildArrayRanges pats = some rl) (n : Nat) :
+    Den rl (n : Int) ↔ ∃ p ∈ pats, ∃ value mask, p.valmask = some (value, mask) ∧
+      agrees value mask n = true ∧ ∀ q, mask >>> q = 0 → n.testBit q = false := by
+  unfold wildArrayRanges at h
+  have hexp : (fun p : Pat => (do
+      let (v, m) ← p.valmask
+      valmask2binlist v m : Option (List (Nat × Nat)))) = expand := rfl
+  simp only [hexp] at h
+  cases hm : pats.mapM expand with
+  | none => rw [hm] at h; simp at h
+  | some rls =>
+    rw [hm] at h
+    simp at h
+    subst h
+    rw [collapse_denotes _ (C10.sortByLow_spec _).1, (C10.sortByLow_spec _).2]
+    unfold Den
+    rw [← List.map_flatten]
+    simp only [List.mem_map, exists_exists_and_eq_and, mapM_flatten_mem pats rls hm]
+    constructor
+    · rintro ⟨x, ⟨p, hp, r, hr, hx⟩, h1, h2⟩
+      have hden : DenN r n := ⟨x, hx, by exact_mod_cast h1, by exact_mod_cast h2⟩
+      unfold expand at hr
+      cases hv : p.valmask with
+      | none => rw [hv] at hr; simp at hr
+      | some vm =>
+        obtain ⟨value, mask⟩ := vm
+        rw [hv] at hr
+        simp at hr
+        exact ⟨p, hp, value, mask, hv, (valmask2binlist_spec value mask r hr n).1 hden⟩
+    · rintro ⟨p, hp, value, mask, hv, hspec⟩
+      cases hr : valmask2binlist value mask with
+      | none =>
+        -- the array was built, so every pattern expanded
+        exfalso
+        have : expand p = none := by unfold expand; rw [hv]; simp [hr]
+        have hall := mapM_none_of_mem pats p hp this
+        rw [hall] at hm; simp at hm
+      | some r =>
+        obtain ⟨x, hx, h1, h2⟩ := (valmask2binlist_spec value mask r hr n).2 hspec
+        have he : expand p = some r := by unfold expand; rw [hv]; simp [hr]
+        exact ⟨x, ⟨p, hp, r, he, hx⟩, by exact_mod_cast h1, by exact_mod_cast h2⟩
 
 /-! ### pattern strings -/
 
